@@ -1,9 +1,13 @@
 package hx
 
 import (
+	"bytes"
+	"errors"
 	"fmt"
+	"io"
 	"strings"
 
+	"github.com/inbucket/inbucket/v3/pkg/message"
 	"github.com/inbucket/inbucket/v3/pkg/storage"
 	"pgregory.net/rapid"
 )
@@ -58,6 +62,10 @@ func (s *Sys) resolve(box string, r *Ref) string {
 	return "bad-ref"
 }
 
+type failingReader struct{}
+
+func (failingReader) Read([]byte) (int, error) { return 0, errors.New("injected read error") }
+
 // Apply runs op against the store and the model. It returns an id-free description of what
 // was observed (for cross-store comparison); violations go to o with keys prefixed by pid.
 func (s *Sys) Apply(pid string, op Op, o *Outcome) string {
@@ -88,6 +96,17 @@ func (s *Sys) Apply(pid string, op Op, o *Outcome) string {
 			}
 		}
 		return fmt.Sprintf("add ok evicted=%d", len(ev))
+	case "addfail":
+		// a delivery whose content cannot be read to the end (an I/O error half way): it must be
+		// reported as failed and leave everything as it was
+		m := op.Msg
+		d := NewDelivery(box, m.FromAddr(), m.ToAddrs(), m.Date(), m.Subject, m.Body).(*message.Delivery)
+		d.Reader = io.MultiReader(bytes.NewReader(m.Body[:len(m.Body)/2]), failingReader{})
+		id, err := s.Store.AddMessage(d)
+		if err == nil {
+			fail("failed-delivery-accepted", "AddMessage returned id %q and no error although the message source failed after %d of %d bytes", id, len(m.Body)/2, len(m.Body))
+		}
+		return "addfail"
 	case "get":
 		id := s.resolve(box, op.Ref)
 		sm, err := s.Store.GetMessage(box, id)
@@ -180,7 +199,7 @@ func OpGen(kinds []string) *rapid.Generator[Op] {
 	return rapid.Custom(func(t *rapid.T) Op {
 		op := Op{K: rapid.SampledFrom(kinds).Draw(t, "k"), Box: rapid.IntRange(0, 7).Draw(t, "box")}
 		switch op.K {
-		case "add":
+		case "add", "addfail":
 			op.Msg = MsgSpecGen.Draw(t, "msg")
 		case "get", "seen", "remove":
 			op.Ref = refGen.Draw(t, "ref")
